@@ -1,1 +1,256 @@
-From Coq Require Import ZArith List.
+(* REFINEMENT: on every history the model's observation of an operation equals the reference
+   object's (ServerWriteSpec.v) wherever the reference object makes a claim.  The reference object
+   is what the implementation is judged against by checks/C13.py. *)
+From Coq Require Import ZArith List Bool Lia.
+From ServerWrite Require Import ServerWriteSpec ServerWriteModel ServerWriteProofs ServerWriteTheorems.
+Import ListNotations.
+Local Open Scope Z_scope.
+Local Open Scope bool_scope.
+
+Arguments ztake : simpl never.
+Arguments zdrop : simpl never.
+Arguments zlen : simpl never.
+Arguments send_count : simpl never.
+Arguments Z.eqb : simpl never.
+Arguments Z.geb : simpl never.
+Arguments Z.leb : simpl never.
+
+(* live part of the relation: the connection is served *)
+Record rel_live (s : st) (t : sst) : Prop := mkrl {
+  rl_q : q t = sendbuf s;
+  rl_susp : s_susp t = suspended s;
+  rl_reg : registered s = true
+}.
+
+(* part that holds as long as the spec makes claims *)
+Record rel_claim (s : st) (t : sst) : Prop := mkrc {
+  rc_closing : s_closing t = closing s;
+  rc_wire : s_wire t = wire s;
+  rc_inbound : s_inbound t = inbound s;
+  rc_peer : s_peer_closed t = peer_closed s;
+  rc_live : s_gone t = false -> rel_live s t
+}.
+
+Record rel (s : st) (t : sst) : Prop := mkrel {
+  r_dead : s_dead t = removed s;
+  r_claim : s_dead t = false -> s_void t = false -> rel_claim s t
+}.
+
+Lemma rel_init : rel init spec_init.
+Proof. split; [reflexivity|]. intros _ _. split; try reflexivity. intros _. split; reflexivity. Qed.
+
+Lemma ret_code_eq n o : ret_code n o = fst (send_ret n o).
+Proof. destruct o; reflexivity. Qed.
+
+Lemma recv_count_nonneg i p m k : recv_count i p m = Some k -> 0 <= k.
+Proof.
+  unfold recv_count. destruct (is_nil i); [destruct p|]; intros H; inversion H; subst; try lia.
+  apply zlen_nonneg.
+Qed.
+
+(* non-Remove steps of a live client keep it live *)
+Lemma step_keeps_alive s x s' r :
+  inv s -> removed s = false -> x <> Remove -> step s x = (s', r) -> removed s' = false.
+Proof.
+  intros Hinv Hrm Hx H. unfold step in H. rewrite Hrm in H.
+  assert (Hdisp : forall n o, dispatch s n o = (s', r) -> removed s' = false).
+  { intros n o Hd. apply event_cases in Hd; auto.
+    destruct Hd as [_ -> _ | _ _ _ -> _ | _ _ _ _ -> _ | sent _ _ _ _ _ -> _ | _ _ _ _ -> _]; simpl; auto. }
+  destruct x; try congruence.
+  - apply do_write_cases in H.
+    destruct H as [Hne -> _ | He _ -> _ | He _ -> _ | sent He Hs _ -> _]; simpl; auto.
+  - eapply Hdisp; eauto.
+  - eapply Hdisp; eauto.
+  - destruct (closing s); inv_pair H; simpl; auto.
+  - inv_pair H. unfold do_suspend. destruct (suspended s); [|destruct (buf_isEmpty _)]; simpl; auto.
+  - inv_pair H. unfold do_resume. destruct (negb (suspended s)); [|destruct (buf_isEmpty _)]; simpl; auto.
+  - unfold do_read in H. destruct (recv_count (inbound s) (peer_closed s) max) as [k|];
+      [destruct (k =? 0)|]; inv_pair H; simpl; auto.
+  - inv_pair H. destruct (peer_closed s); simpl; auto.
+  - destruct (peer_closed s); inv_pair H; simpl; auto.
+  - destruct (peer_closed s); inv_pair H; simpl; auto.
+Qed.
+
+(* one poll event: model against spec_deliver *)
+Lemma deliver_refines s t n o s' r t' c :
+  inv s -> removed s = false -> rel_claim s t -> s_gone t = false ->
+  dispatch s n o = (s', r) -> spec_deliver t n o = (t', c) ->
+  c = r /\ rel_claim s' t' /\ s_dead t' = s_dead t /\ s_void t' = s_void t /\ removed s' = false.
+Proof.
+  intros Hinv Hrm [Hc Hw Hi Hp Hl] Hg Hd Hs. destruct (Hl Hg) as [Hq Hsu Hr].
+  destruct (Hinv) as [Hint _ _]. destruct (Hint Hr) as [Hir Hiw].
+  assert (Edr : (nin n || nhup n) && negb (s_susp t) = ev_read s n).
+  { unfold ev_read. rewrite Hir, Hsu. reflexivity. }
+  assert (Edw : (nout n || negb (ev_read s n) && nhup n) && negb (is_nil (q t)) = ev_write s n).
+  { unfold ev_write. rewrite Hiw, Hq. reflexivity. }
+  unfold spec_deliver in Hs. rewrite Edr, Edw in Hs.
+  pose proof (send_ret_result (zlen (sendbuf s)) o (zlen_nonneg _)) as Hsr.
+  apply event_cases in Hd; auto.
+  destruct Hd as [[Hx|[He Hew]] -> -> | _ He Hew -> -> | _ Hew Hne Hf -> -> | sent _ Hew Hne Hsent Hwh -> -> | _ Hew Hne Hle -> ->].
+  - congruence.
+  - rewrite He, Hew in Hs. inv_pair Hs. repeat split; auto.
+  - rewrite He, Hew in Hs. inv_pair Hs. repeat split; auto.
+  - rewrite Hew in Hs. unfold hand_over in Hs. rewrite Hq in Hs.
+    destruct (send_result (zlen (sendbuf s)) o) as [| |k] eqn:Er.
+    + exfalso. rewrite Hsr in Hf. simpl in Hf. destruct Hf as [Hf|Hf]; [lia | discriminate].
+    + inv_pair Hs. rewrite ret_code_eq. repeat split; simpl; auto.
+    + exfalso. destruct Hsr as [A B]. destruct Hf as [Hf|Hf]; [lia | rewrite Hf in A; simpl in A; lia].
+  - rewrite Hew in Hs. unfold hand_over in Hs. rewrite Hq in Hs.
+    destruct (send_result (zlen (sendbuf s)) o) as [| |k] eqn:Er.
+    + inv_pair Hs. rewrite ret_code_eq.
+      destruct Hwh as [[H0 Hb] | [H1 He]]; [| rewrite Hsr in He; simpl in He; lia]. subst sent.
+      rewrite ztake_0, zdrop_0. split; [reflexivity|].
+      repeat split; simpl; auto; try (rewrite app_nil_r; auto).
+    + exfalso. destruct Hwh as [[H0 Hb] | [H1 He]].
+      * rewrite Hb in Hsr. simpl in Hsr. destruct Hsr as [[_ X]|X]; [discriminate | lia].
+      * destruct Hsr as [[X _]|X]; lia.
+    + destruct Hsr as [A B].
+      destruct Hwh as [[H0 Hb] | [H1 He]]; [rewrite Hb in A; simpl in A; lia |].
+      assert (Hk : k = sent) by lia. rewrite Hk in Hs.
+      rewrite nonnil_is_nil in Hs by (apply zdrop_nonnil; lia). injection Hs as <- <-.
+      rewrite <- He. split; [reflexivity|]. repeat split; simpl; auto; try congruence.
+  - rewrite Hew in Hs. unfold hand_over in Hs. rewrite Hq in Hs.
+    destruct (send_result (zlen (sendbuf s)) o) as [| |k] eqn:Er.
+    + exfalso. rewrite Hsr in Hle. simpl in Hle. pose proof (zlen_nonneg (sendbuf s)). lia.
+    + exfalso. assert (0 < zlen (sendbuf s)).
+      { pose proof (zlen_nonneg (sendbuf s)). pose proof (zlen_nil_iff (sendbuf s)).
+        destruct (Z.eq_dec (zlen (sendbuf s)) 0); [tauto | lia]. }
+      destruct Hsr as [[X _]|X]; lia.
+    + destruct Hsr as [A B]. assert (Hk : k = zlen (sendbuf s)) by lia. rewrite Hk in Hs, A.
+      rewrite ztake_all, zdrop_all in Hs by lia. simpl in Hs. injection Hs as <- <-. rewrite A.
+      split; [reflexivity|]. repeat split; simpl; auto; try congruence.
+Qed.
+
+Lemma rel_intro s t : s_dead t = removed s -> rel_claim s t -> rel s t.
+Proof. intros A B. split; auto. Qed.
+
+Lemma rel_void s t : s_dead t = removed s -> (s_dead t = true \/ s_void t = true) -> rel s t.
+Proof. intros A [B|B]; split; auto; intros; congruence. Qed.
+
+Ltac live_of Hl :=
+  let Hg := fresh "Hg" in
+  intros Hg; simpl in Hg; try discriminate;
+  first [ destruct (Hl Hg) as [? ? ?] | destruct (Hl eq_refl) as [? ? ?] ]; split; simpl; auto; try congruence.
+
+Ltac mk_rel Hl :=
+  apply rel_intro; [simpl; congruence | split; simpl; auto; try congruence; try (live_of Hl)].
+
+Lemma step_refines s t x s' r t' c :
+  inv s -> rel s t -> step s x = (s', r) -> spec_step t x = (t', c) ->
+  claim_met c r /\ rel s' t'.
+Proof.
+  intros Hinv [Hdead Hcl] Hst Hsp. unfold spec_step in Hsp.
+  destruct (s_dead t) eqn:Ed.
+  { (* removed *)
+    rewrite step_removed in Hst by congruence. inv_pair Hst. inv_pair Hsp. simpl. split; auto.
+    apply rel_void; auto. congruence. }
+  assert (Hrm : removed s = false) by congruence.
+  destruct (s_void t) eqn:Ev.
+  { (* no claims any more *)
+    destruct x; try (inv_pair Hsp; simpl; split; auto;
+      (apply rel_void; [rewrite Ed; symmetry; eapply step_keeps_alive; eauto; congruence | auto])).
+    inv_pair Hsp. unfold step in Hst. rewrite Hrm in Hst. inv_pair Hst. simpl. split; auto.
+    apply rel_void; simpl; auto. }
+  specialize (Hcl eq_refl eq_refl). pose proof Hcl as [Hc Hw Hi Hp Hl].
+  pose proof Hst as Hst'. unfold step in Hst. rewrite Hrm in Hst.
+  (* operations answered in every served-or-given-up state *)
+  assert (Hcommon : forall y, spec_common t x = Some y -> y = (t', c) -> claim_met c r /\ rel s' t').
+  { intros y Hy ->. destruct x; simpl in Hy; try discriminate.
+    - (* CloseSweep *) rewrite Hc in Hy. destruct (closing s); inv_pair Hy; inv_pair Hst; simpl; (split; [auto|]).
+      + mk_rel Hl.
+      + apply rel_intro; [congruence | assumption].
+    - (* PeerWrite *) inv_pair Hy. inv_pair Hst. simpl. split; auto. rewrite Hp, Hi.
+      destruct (peer_closed s) eqn:Epc; mk_rel Hl.
+    - (* PeerRead *) rewrite Hp in Hy. destruct (peer_closed s) eqn:Epc; inv_pair Hy; inv_pair Hst; simpl.
+      + split; auto. apply rel_intro; [congruence | assumption].
+      + rewrite Hw. split; auto. mk_rel Hl.
+    - (* PeerClose *) rewrite Hp in Hy. destruct (peer_closed s) eqn:Epc; inv_pair Hy; inv_pair Hst; simpl.
+      + split; auto. apply rel_intro; [congruence | assumption].
+      + rewrite Hw. split; auto. mk_rel Hl.
+    - (* Remove *) inv_pair Hy. inv_pair Hst. simpl. split; auto. apply rel_void; simpl; auto. }
+  destruct (spec_common t x) as [y|] eqn:Ecom. { eapply Hcommon; eauto. }
+  clear Hcommon.
+  assert (Hxr : x <> Remove) by (intros ->; simpl in Ecom; discriminate).
+  destruct (s_gone t) eqn:Eg.
+  { (* the application goes on using a connection that was given up: the spec stops claiming *)
+    inv_pair Hsp. simpl. split; auto. apply rel_void; simpl; auto.
+    symmetry. eapply step_keeps_alive; eauto. }
+  destruct (Hl eq_refl) as [Hq Hsu Hr].
+  destruct x; simpl in Ecom; try discriminate.
+  - (* Write *)
+    rewrite Hq in Hsp.
+    pose proof (send_ret_result (zlen d) o (zlen_nonneg _)) as Hsr.
+    apply do_write_cases in Hst.
+    destruct Hst as [Hne -> -> | He Hf -> -> | He Hwh -> -> | sent He Hs Hwh -> ->].
+    + rewrite nonnil_is_nil in Hsp by assumption. injection Hsp as <- <-. simpl. split; auto.
+      mk_rel Hl.
+    + rewrite He in Hsp. simpl in Hsp. unfold hand_over in Hsp.
+      destruct (send_result (zlen d) o) as [| |k] eqn:Er.
+      * exfalso. rewrite Hsr in Hf. simpl in Hf. destruct Hf as [Hf|Hf]; [lia | discriminate].
+      * injection Hsp as <- <-. simpl. rewrite ret_code_eq. split; auto. mk_rel Hl.
+      * exfalso. destruct Hsr as [A B]. destruct Hf as [Hf|Hf]; [lia | rewrite Hf in A; simpl in A; lia].
+    + rewrite He in Hsp. simpl in Hsp. unfold hand_over in Hsp.
+      destruct (send_result (zlen d) o) as [| |k] eqn:Er.
+      * destruct Hwh as [[Hd0 Hb] | [H1 Hle]]; [| rewrite Hsr in H1; simpl in H1; lia]. rewrite Hd0 in *.
+        injection Hsp as <- <-. simpl. rewrite ret_code_eq. split; [reflexivity|]. mk_rel Hl; rewrite ?app_nil_r; auto.
+      * exfalso. destruct Hwh as [[Hd0 Hb] | [H1 Hle]].
+        -- rewrite Hb in Hsr. simpl in Hsr. destruct Hsr as [[_ X]|X]; [discriminate | lia].
+        -- destruct Hsr as [[X _]|X]; lia.
+      * destruct Hsr as [A B].
+        destruct Hwh as [[Hd0 Hb] | [H1 Hle]]; [rewrite Hb in A; simpl in A; lia |].
+        assert (Hk : k = zlen d) by lia. rewrite Hk in Hsp. rewrite ztake_all, zdrop_all in Hsp by lia.
+        injection Hsp as <- <-. simpl. rewrite ret_code_eq. split; auto. mk_rel Hl.
+    + rewrite He in Hsp. simpl in Hsp. unfold hand_over in Hsp.
+      destruct (send_result (zlen d) o) as [| |k] eqn:Er.
+      * destruct Hwh as [[H0 Hb] | [H1 Heq]]; [| rewrite Hsr in Heq; simpl in Heq; lia]. rewrite H0 in *.
+        injection Hsp as <- <-. simpl. rewrite ret_code_eq, ztake_0, zdrop_0. split; auto.
+        mk_rel Hl; rewrite ?app_nil_r; auto.
+      * exfalso. destruct Hwh as [[H0 Hb] | [H1 Heq]].
+        -- rewrite Hb in Hsr. simpl in Hsr. destruct Hsr as [[_ X]|X]; [discriminate | lia].
+        -- destruct Hsr as [[X _]|X]; lia.
+      * destruct Hsr as [A B].
+        destruct Hwh as [[H0 Hb] | [H1 Heq]]; [rewrite Hb in A; simpl in A; lia |].
+        assert (Hk : k = sent) by lia. rewrite Hk in Hsp.
+        injection Hsp as <- <-. simpl. rewrite ret_code_eq, <- Heq. split; auto. mk_rel Hl.
+  - (* Dispatch *)
+    destruct (spec_deliver t n o) as [t1 r1] eqn:Esd. injection Hsp as <- <-.
+    destruct (deliver_refines _ _ _ _ _ _ _ _ Hinv Hrm Hcl Eg Hst Esd) as [-> [Hrc [Hd' [Hv' Hrm']]]].
+    simpl. split; auto. apply rel_intro; [congruence | assumption].
+  - (* PollReal *)
+    rewrite Hi, Hp in Hsp.
+    destruct (spec_deliver t (real_native (inbound s) (peer_closed s)) o) as [t1 r1] eqn:Esd. injection Hsp as <- <-.
+    destruct (deliver_refines _ _ _ _ _ _ _ _ Hinv Hrm Hcl Eg Hst Esd) as [-> [Hrc [Hd' [Hv' Hrm']]]].
+    simpl. split; auto. apply rel_intro; [congruence | assumption].
+  - (* Suspend *)
+    injection Hsp as <- <-. injection Hst as <- <-. simpl. split; auto. unfold do_suspend.
+    destruct (suspended s) eqn:Es; [|destruct (buf_isEmpty (sendbuf (set_susp s true)))]; mk_rel Hl.
+  - (* Resume *)
+    injection Hsp as <- <-. injection Hst as <- <-. simpl. split; auto. unfold do_resume.
+    destruct (suspended s) eqn:Es; cbn [negb]; [destruct (buf_isEmpty (sendbuf (set_susp s false)))|]; mk_rel Hl.
+  - (* Read *)
+    rewrite Hi, Hp in Hsp. unfold do_read in Hst.
+    destruct (recv_count (inbound s) (peer_closed s) max) as [k|] eqn:Erc.
+    + pose proof (recv_count_nonneg _ _ _ _ Erc) as Hk.
+      destruct (k =? 0) eqn:E0.
+      * assert (E1 : (k <=? 0) = true) by lia. rewrite E1 in Hsp. injection Hsp as <- <-. injection Hst as <- <-.
+        simpl. split; auto. mk_rel Hl.
+      * assert (E1 : (k <=? 0) = false) by lia. rewrite E1 in Hsp. injection Hsp as <- <-. injection Hst as <- <-.
+        simpl. split; auto. mk_rel Hl.
+    + injection Hsp as <- <-. injection Hst as <- <-. simpl. split; auto. apply rel_intro; [congruence | assumption].
+Qed.
+
+Lemma exec_refines l : forall s t,
+  inv s -> rel s t -> Forall2 claim_met (snd (spec_exec t l)) (snd (exec s l)).
+Proof.
+  induction l as [|x l IH]; intros s t Hinv Hrel; simpl.
+  - constructor.
+  - destruct (step s x) as [s1 r] eqn:Es. destruct (spec_step t x) as [t1 c] eqn:Et.
+    destruct (step_refines _ _ _ _ _ _ _ Hinv Hrel Es Et) as [Hc Hr1].
+    specialize (IH s1 t1 (inv_step _ _ _ _ Hinv Es) Hr1).
+    destruct (exec s1 l) as [s2 rs]. destruct (spec_exec t1 l) as [t2 cs]. simpl in *.
+    constructor; assumption.
+Qed.
+
+Lemma refinement_lemma ops :
+  Forall2 claim_met (snd (spec_exec spec_init ops)) (snd (exec init ops)).
+Proof. apply exec_refines; [apply inv_init | apply rel_init]. Qed.
